@@ -2,6 +2,7 @@ use acme_common::error::Error;
 use nom::bytes::complete::take_while_m_n;
 use nom::character::complete::digit1;
 use nom::combinator::map_res;
+use nom::error::{Error as NomError, ErrorKind};
 use nom::multi::fold_many1;
 use nom::IResult;
 use std::time::Duration;
@@ -26,26 +27,23 @@ fn get_multiplicator(input: &str) -> IResult<&str, u64> {
 fn get_duration_part(input: &str) -> IResult<&str, Duration> {
 	let (input, nb) = map_res(digit1, |s: &str| s.parse::<u64>())(input)?;
 	let (input, mult) = get_multiplicator(input)?;
-	Ok((input, Duration::from_secs(nb * mult)))
+	let nb_secs = nb
+		.checked_mul(mult)
+		.ok_or_else(|| nom::Err::Failure(NomError::new(input, ErrorKind::TooLarge)))?;
+	Ok((input, Duration::from_secs(nb_secs)))
 }
 
-fn get_duration(input: &str) -> IResult<&str, Duration> {
+fn get_duration(input: &str) -> IResult<&str, Option<Duration>> {
 	fold_many1(
 		get_duration_part,
-		|| Duration::new(0, 0),
-		|mut acc: Duration, item| {
-			acc += item;
-			acc
-		},
+		|| Some(Duration::new(0, 0)),
+		|acc: Option<Duration>, item| acc.and_then(|d| d.checked_add(item)),
 	)(input)
 }
 
 pub fn parse_duration(input: &str) -> Result<Duration, Error> {
 	match get_duration(input) {
-		Ok((r, d)) => match r.len() {
-			0 => Ok(d),
-			_ => Err(format!("{input}: invalid duration").into()),
-		},
-		Err(_) => Err(format!("{input}: invalid duration").into()),
+		Ok((r, Some(d))) if r.is_empty() => Ok(d),
+		_ => Err(format!("{input}: invalid duration").into()),
 	}
 }
